@@ -326,6 +326,13 @@ func main() {
 		for len(scs) < n {
 			scs = append(scs, random(r))
 		}
+		// a third of the deployments run with proxy.response_timeout disabled (0), the setting recommended for long
+		// generations: the read timeout must cut off a stalled backend there too
+		for i := range scs {
+			if i%3 == 1 {
+				scs[i].NoResponseTimeout = true
+			}
+		}
 	}
 	batch := 36
 	if tier == "thorough" {
